@@ -384,6 +384,16 @@ parser = opparse.Parser(
 )
 
 
+def _expect(node, value, types, what):
+    """Raise a syntax error at node unless value is an instance of types."""
+    if not isinstance(value, types):
+        raise node.location.syntax_error(
+            f"Invalid operand for {what}: expected a variable or a call,"
+            " not a sequence or another construct"
+        )
+    return value
+
+
 def _guarantee_call(parent, context, resolve=True):
     """Always returns a Call instance.
 
@@ -413,7 +423,11 @@ class Evaluator:
         return deco
 
     def __call__(self, ast, context="root"):
-        assert ast is not None
+        if ast is None:
+            err = SyntaxError("Empty selector or missing operand")
+            err.lineno = 1
+            err.offset = 1
+            raise err
         if isinstance(ast, opparse.Token):
             key = "SYMBOL"
         else:
@@ -437,8 +451,12 @@ def make_group(node, _1, element, _2, context):
 
 @evaluate.register_action("X > X")
 def make_nested_imm(node, parent, child, context):
-    parent = evaluate(parent, context=context)
-    child = evaluate(child, context=context)
+    parent = _expect(
+        node, evaluate(parent, context=context), (Element, Call), ">"
+    )
+    child = _expect(
+        node, evaluate(child, context=context), (Element, Call), ">"
+    )
     parent = _guarantee_call(parent, context=context)
     if isinstance(child, Element):
         child = child.with_focus()
@@ -472,36 +490,37 @@ def make_class(node, element, tag, context):
     element = (
         evaluate(element, context=context) if element else Element(name=None)
     )
+    _expect(node, element, Element, ":")
     tag = value_evaluate(tag)
     return element.clone(category=tag)
 
 
 @evaluate.register_action("_ ! X")
 def make_focus(node, _, element, context):
-    element = evaluate(element, context=context)
-    assert isinstance(element, Element)
+    element = _expect(node, evaluate(element, context=context), Element, "!")
     return element.with_focus()
 
 
 @evaluate.register_action("_ !! X")
 def make_double_focus(node, _, element, context):
-    element = evaluate(element, context=context)
-    assert isinstance(element, Element)
+    element = _expect(node, evaluate(element, context=context), Element, "!!")
     return element.clone(tags=frozenset({2}))
 
 
 @evaluate.register_action("_ $ X")
 def make_dollar(node, _, name, context):
-    name = evaluate(name, context=context)
+    name = _expect(node, evaluate(name, context=context), Element, "$")
     return Element(name=None, category=None, capture=name.name, tags=name.tags)
 
 
 @evaluate.register_action("X ( _ ) _")
 @evaluate.register_action("X ( X ) _")
 def make_call_capture(node, fn, names, _, context):
-    fn = evaluate(fn, context=context)
+    fn = _expect(node, evaluate(fn, context=context), (Element, Call), "()")
     names = evaluate(names, context="incall") if names else []
     names = names if isinstance(names, list) else [names]
+    for name in names:
+        _expect(node, name, (Element, Call), "()")
     fn = _guarantee_call(fn, context=context)
     caps = tuple(name for name in names if isinstance(name, Element))
     children = tuple(name for name in names if isinstance(name, Call))
@@ -521,8 +540,10 @@ def make_sequence(node, a, b, context):
 
 @evaluate.register_action("X as X")
 def make_as(node, element, name, context):
-    element = evaluate(element, context=context)
-    name = evaluate(name, context=context)
+    element = _expect(
+        node, evaluate(element, context=context), (Element, Call), "as"
+    )
+    name = _expect(node, evaluate(name, context=context), Element, "as")
     if isinstance(element, Element):
         return element.clone(capture=name.name, tags=element.tags | name.tags)
     else:
@@ -537,7 +558,9 @@ def make_as(node, element, name, context):
 
 @evaluate.register_action("X = X")
 def make_equals(node, element, value, context, matchfn=False):
-    element = evaluate(element, context=context)
+    element = _expect(
+        node, evaluate(element, context=context), (Element, Call), "= or ~"
+    )
     value = value_evaluate(value)
     if matchfn:
         value = VCall(MatchFunction, (value,))
@@ -614,7 +637,12 @@ def dict_resolver(env):
                 raise SelectorError(f"Could not resolve '{start}'.")
 
             for part in parts:
-                curr = getattr(curr, part)
+                try:
+                    curr = getattr(curr, part)
+                except AttributeError:
+                    raise SelectorError(
+                        f"Could not resolve '{x}': no attribute '{part}'."
+                    )
 
         return getattr(curr, "__ptera__", curr)
 
@@ -822,7 +850,11 @@ def _select(selector, context="root"):
             captures=(selector.with_focus(),),
             immediate=False,
         )
-    assert isinstance(selector, Call)
+    if not isinstance(selector, Call):
+        raise SelectorError(
+            "A selector must be a single variable or call path,"
+            f" not a sequence: {selector}"
+        )
     return selector
 
 
